@@ -23,6 +23,7 @@ mod c12;
 mod c13;
 mod c16;
 mod c17;
+mod c18;
 mod c08;
 mod c09;
 mod c06;
@@ -112,6 +113,7 @@ fn main() {
         "C13" => c13::run(&cfg),
         "C16" => c16::run(&cfg),
         "C17" => c17::run(&cfg),
+        "C18" => c18::run(&cfg),
         "C06" => c06::run(&cfg),
         _ => {
             eprintln!("no check for {prop}");
